@@ -204,7 +204,9 @@ func buildC15(tier string) *core.Plan {
 		Run:  func(c *core.Ctx, i int64) { c15Pair(c, trees[i/nt], trees[i%nt]) }}
 	nl := int64(len(lists))
 	listPairs := core.Space{Name: "list-pairs", N: nl * nl,
-		Desc: func(i int64) any { return map[string]any{"base": map[string]any{"l": lists[i/nl], "k": 1}, "target": map[string]any{"l": lists[i%nl], "k": 1}} },
+		Desc: func(i int64) any {
+			return map[string]any{"base": map[string]any{"l": lists[i/nl], "k": 1}, "target": map[string]any{"l": lists[i%nl], "k": 1}}
+		},
 		Run: func(c *core.Ctx, i int64) {
 			c15Pair(c, map[string]any{"l": lists[i/nl], "k": 1}, map[string]any{"l": lists[i%nl], "k": 1})
 		}}
@@ -213,7 +215,9 @@ func buildC15(tier string) *core.Plan {
 	ns := int64(len(small))
 	fm := []string{"json", "yaml", "toml"}
 	cli := core.Space{Name: "cli-format-mixes", N: ns * ns,
-		Desc: func(i int64) any { return map[string]any{"base": small[i/ns], "target": small[i%ns], "formats": "all 27 (base, target, layer) format assignments"} },
+		Desc: func(i int64) any {
+			return map[string]any{"base": small[i/ns], "target": small[i%ns], "formats": "all 27 (base, target, layer) format assignments"}
+		},
 		Run: func(c *core.Ctx, i int64) {
 			base, target := small[i/ns], small[i%ns]
 			k := int(i % 27)
@@ -349,7 +353,9 @@ func buildC15(tier string) *core.Plan {
 		map[string]any{"quota": 3000000001, "sizes": []any{1, 4294967296, 7}, "f": 0.1, "max": math.MaxInt64, "items": []any{map[string]any{"id": 5000000000}, map[string]any{"id": 1}, map[string]any{"id": 2}}},
 	}
 	numSpace := core.Space{Name: "cli-cross-format-numbers", N: int64(len(numTargets) * 27), Chunk: 1,
-		Desc: func(i int64) any { return map[string]any{"base": numBase, "target": numTargets[i/27], "formats": []string{fm[i%3], fm[(i/3)%3], fm[(i/9)%3]}} },
+		Desc: func(i int64) any {
+			return map[string]any{"base": numBase, "target": numTargets[i/27], "formats": []string{fm[i%3], fm[(i/3)%3], fm[(i/9)%3]}}
+		},
 		Run: func(c *core.Ctx, i int64) {
 			c15CLI(c, numBase, numTargets[i/27], fm[i%3], fm[(i/3)%3], fm[(i/9)%3])
 		}}
